@@ -1275,6 +1275,51 @@ def rule_R2(prog, fixture=False):
             else:
                 res.add(key, DISCHARGED, where, what, "%d constant range check(s) on the parameter, none excludes a value of the range%s" % (
                     len(checks), "; also checked as %s" % other[0][1].text()[:60] if other else ""), func=f.name, extra=extra)
+    # a relational domain: Tuner accepts every f with |f| <= fs/2, the boundary included (C14 ranges over f in [-fs/2, fs/2])
+    for f in sorted([f for f in prog.functions.values() if re.match(r"^dsplib::Tuner::Tuner$", f.qn) and not f.get("implicit")
+                     and not f.file.endswith("coverage.cc")], key=lambda f: (f.file, f.line)):
+        f.blocks
+        flow = Flow(f, prog, control=False)
+        key = "R2:C14:%s:freq-boundary" % fkey(f)
+        where = "%s:%d" % (prog.rel(f.file), f.line)
+        what = "%s accepts |freq| == sample_rate / 2" % f.short
+        extra = {"props": ["C14"]}
+        strict = None
+        seen = 0
+
+        def names(e):
+            out = set()
+            for x in e.walk():
+                if x.k == "DeclRefExpr" and x.decl and x.decl.get("k") == "parm":
+                    out.add(x.decl.get("n"))
+                if x.k == "MemberExpr" and x.decl and x.decl.get("k") == "field":
+                    out.add(x.decl.get("n"))
+            return out
+        fq = {"freq", "_freq"}
+        fsn = {"sample_rate", "_fs", "fs"}
+        for fact in f.facts_at_block(f.exit, normal_exit=True):
+            if fact.belief or not fact.rejects_by_throw:
+                continue
+            for (c, pol) in atoms_of(fact.cond, fact.pol):
+                cmp_ = as_comparison(c)
+                if cmp_ is None:
+                    continue
+                l, op, r = cmp_
+                nl, nr = names(l), names(r)
+                if not ((nl & fq and nr & fsn and not (nl & fsn) and not (nr & fq)) or (nr & fq and nl & fsn and not (nr & fsn) and not (nl & fq))):
+                    continue
+                seen += 1
+                if not pol:
+                    op = {"<": ">=", ">=": "<", ">": "<=", "<=": ">", "==": "!=", "!=": "=="}[op]
+                if op in ("<", ">"):
+                    strict = c
+        if strict is not None:
+            res.add(key, VIOLATED, "%s:%d" % (prog.rel(f.file), strict.line), what,
+                    "the surviving side of `%s` is a strict comparison of the frequency with half the sample rate: f = +-fs/2, the end "
+                    "points of the range the property quantifies over, is rejected" % strict.text()[:80], func=f.name, extra=extra)
+        elif seen:
+            res.add(key, DISCHARGED, where, what, "%d range check(s) of the frequency against the sample rate, none strict" % seen, func=f.name, extra=extra)
+        n += 1 if seen else 0
     res.stats["entry_point_parameters"] = n
     if not n and not fixture:
         res.broken.append("anchor vanished: none of the tabulated entry points / parameters exists")
